@@ -152,6 +152,8 @@ class Registry:
         for f in self.axioms:
             out.extend(f(eng))
         out.extend(eng.lemma_schemas())
+        for v in getattr(eng, "table_schemas", {}).values():
+            out.extend(v)
         return out
 
     def spec_name(self, eng, name):
